@@ -20,7 +20,10 @@ BFails(e) ==
     LET c == e.c  m == MutateB(c) IN
          Fail("C16_ConfigName", e.b.ok = m.ok /\ (m.ok => /\ e.b.owner = m.owner /\ e.b.uidlabel = m.uidlabel /\ e.b.template = m.template
                                                             /\ e.b.policy = m.policy /\ e.b.cfgnamecleared /\ e.b.fin = m.fin))
+    \cup Fail("C16_SharedCacheIntact", e.mutated = <<>>)
     \cup Fail("C16_Precedence", m.ok /\ e.b.ok => (e.b.opta = m.opta /\ e.b.jcname = m.jcname /\ e.b.label = m.label))
+DFails(e) == Fail("C16_Defaults", e.err = "" /\ e.a.pt = PtD(e.c.pt1) /\ e.a2.pt = PtD(e.c.pt2))
+             \cup Fail("C16_SharedCacheIntact", e.mutated = <<>>)
 CFails(e) == Fail("C16_LastUpdated", e.err = "" /\ e.stamp = StampedC(e.c))
 UFails(e) == Fail("C17_Immutable", e.err = "" /\ (e.allowed = ~RefuseU(e.c)))
 PFails(e) == Fail("C17_Processable", e.flags.accepted => (\A k \in DOMAIN e.flags : e.flags[k])
@@ -29,7 +32,7 @@ PFails(e) == Fail("C17_Processable", e.flags.accepted => (\A k \in DOMAIN e.flag
 Init == l = 1 /\ viol = {}
 Next == /\ l <= N /\ l' = l + 1
         /\ LET e == Trace[l]
-               fs == CASE e.ev = "A" -> AFails(e) [] e.ev = "B" -> BFails(e) [] e.ev = "C" -> CFails(e) [] e.ev = "U" -> UFails(e) [] e.ev = "P" -> PFails(e) [] OTHER -> {}
+               fs == CASE e.ev = "A" -> AFails(e) [] e.ev = "B" -> BFails(e) [] e.ev = "C" -> CFails(e) [] e.ev = "D" -> DFails(e) [] e.ev = "U" -> UFails(e) [] e.ev = "P" -> PFails(e) [] OTHER -> {}
                w == IF e.ev = "A" /\ ~e.c.spec THEN "no-spec" ELSE ""
            IN viol' = viol \cup {[f |-> f, line |-> l, run |-> e.run, ev |-> e.ev, faulted |-> FALSE, witness |-> w] : f \in fs}
 Spec == Init /\ [][Next]_vars
